@@ -330,6 +330,63 @@ def r3(case, rec):
 
 
 @st.composite
+def vourlaki_case(draw):
+    g = draw(grid_case(max_pts=10))
+    g['add'] = [draw(st.sampled_from([0.5, 1.0, 5.0, 10.0]))]
+    return dict(grid=g, seed=draw(st.integers(0, 2 ** 31 - 1)), n1=draw(st.integers(2, 4)), n2=draw(st.integers(2, 4)),
+                alpha=draw(st.floats(0.15, 3.0)), beta=math.exp(draw(st.floats(math.log(0.5), math.log(300.0)))),
+                ppos_wild=draw(st.floats(0.0, 0.5)), pchange=draw(st.floats(0.0, 1.0)), pchange_pos=draw(st.floats(0.0, 1.0)),
+                theta=draw(st.floats(0.1, 1e3)))
+
+
+@REG.relation('R7-vourlaki-mixture', strategy=vourlaki_case, quick=(64, 16), thorough=(1200, 16))
+def r7(case, rec):
+    """Vourlaki_mixture = theta x the six stated components with their stated weights: equal negative (1-D cache), independent
+    negative (2-D cache), positive in both, and positive in one population with the other integrated over the gamma DFE
+    (trapezoid over the cached grid + the most neutral / most deleterious cached spectrum times the tail masses)."""
+    import scipy.stats as ss
+    m2 = Model2D(case['seed'], case['n1'], case['n2'])
+
+    class Diag:
+        __name__ = 'diag'
+
+        def __call__(self, params, ns, pts):
+            return m2(list(params) + [params[-1]], ns, pts)
+    g = case['grid']
+    gp = g['add'][0]
+    cache2 = build_cache2d(case, m2)
+    with dadi_call('Cache1D'):
+        cache1 = Cache1D([0.7], [case['n1'], case['n2']], Diag(), [20], gamma_bounds=(g['lo'], g['hi']), gamma_pts=g['pts'],
+                         additional_gammas=list(g['add']), cpus=1)
+    a, b, theta = case['alpha'], case['beta'], case['theta']
+    pw, pc, pcp = case['ppos_wild'], case['pchange'], case['pchange_pos']
+    rec.case(case, pw > 0 and 0 < pc < 1 and 0 < pcp < 1, ['n1!=n2' if case['n1'] != case['n2'] else 'n1=n2'])
+    with dadi_call('Vourlaki_mixture'):
+        got = np.asarray(np.ma.getdata(DFE.Vourlaki_mixture([a, b, pw, gp, pc, pcp], None, cache1, cache2, theta, None)), float)
+    gpos = -np.asarray(cache2.neg_gammas, float)[::-1]
+    spec = lambda g1, g2: np.asarray(np.ma.getdata(m2([0.7, g1, g2], None, None)), float)
+    S1 = np.array([spec(-x, -x) for x in gpos])
+    m5, _ = Q.integrate_1d(gpos, S1, spec(0, 0), 'gamma', [a, b], 1.0)
+    S2 = np.array([[spec(-x, -y) for y in gpos] for x in gpos])
+    d = Q.BivIndGamma([a, b])
+    m6, _, _ = Q.integrate_2d(gpos, S2, d, 1.0, exterior=True, both_lethal=True)
+    dist = ss.gamma(a, scale=b)
+    w = dist.pdf(gpos)
+    w_neu, w_del = float(dist.cdf(gpos[0])), float(dist.sf(gpos[-1]))
+    pos_neg = np.array([spec(gp, -y) for y in gpos])
+    neg_pos = np.array([spec(-x, gp) for x in gpos])
+    m4 = Q._trapz(w[:, None, None] * pos_neg, gpos, axis=0) + pos_neg[0] * w_neu + pos_neg[-1] * w_del
+    m7 = Q._trapz(w[:, None, None] * neg_pos, gpos, axis=0) + neg_pos[0] * w_neu + neg_pos[-1] * w_del
+    mpp = spec(gp, gp)
+    exp = theta * (m5 * (1 - pw) * (1 - pc) + m6 * (1 - pw) * pc * (1 - pcp) + m7 * (1 - pw) * pc * pcp
+                   + mpp * pw * (1 - pc) + mpp * pw * pc * pcp + m4 * pw * pc * (1 - pcp))
+    scale = theta * np.abs(S2).max()
+    budget = Q.quad_budget_2d(gpos, d, PDFs.biv_ind_gamma, [a, b])
+    require_close(got, exp, 1e-6, 'Vourlaki_mixture vs its stated components and weights', rec, key='vourlaki',
+                  atol=scale * (1e-6 + 2.0 * budget))
+
+
+@st.composite
 def sched_case(draw):
     return dict(grid=draw(grid_case(max_pts=7)), seed=draw(st.integers(0, 2 ** 31 - 1)), n1=draw(st.integers(2, 3)), n2=draw(st.integers(2, 3)),
                 n=draw(st.integers(3, 6)), cpus=draw(st.sampled_from([2, 3, 5, 8, 16])), split=draw(st.integers(1, 6)),
